@@ -136,7 +136,7 @@ class BaseSession(SessionInterface, Generic[MessageT]):
             # RFC 3501 6.3.3: the name created is without the trailing
             # hierarchy delimiter.
             name = name[:-len(delimiter)]
-            if name.upper() == 'INBOX':
+            if name.isascii() and name.upper() == 'INBOX':
                 raise MailboxConflict('INBOX')
         try:
             mailbox_id = await self.mailbox_set.add_mailbox(name)
